@@ -116,6 +116,21 @@ Legal(sc) ==
   \A k \in 1..NL(sc) : sc.kinds[k] = "L" =>
      \A j \in 1..Len(sc.v[k]) : Masked(sc, k, j) => Kids(sc, k, j) = 0
 
+\* Rows a..b of a column as a column of its own (a batch / a page of the file)
+RECURSIVE SlotsBefore(_, _, _)
+SlotsBefore(sc, k, a) ==   \* slots of layer k that belong to rows 1..a-1
+  IF k = 1 THEN a - 1
+  ELSE LET p == SlotsBefore(sc, k-1, a) IN
+       CASE sc.kinds[k-1] = "L" -> Off(sc, k-1, p + 1)
+         [] sc.kinds[k-1] = "F" -> p * Dim
+         [] OTHER -> p
+SubCol(sc, a, b) ==
+  [kinds |-> sc.kinds, hasv |-> sc.hasv,
+   v    |-> [k \in 1..NL(sc) |-> SubSeq(sc.v[k], SlotsBefore(sc, k, a) + 1, SlotsBefore(sc, k, b + 1))],
+   lens |-> [k \in 1..NL(sc) |-> IF sc.kinds[k] = "L"
+                                  THEN SubSeq(sc.lens[k], SlotsBefore(sc, k, a) + 1, SlotsBefore(sc, k, b + 1))
+                                  ELSE <<>>]]
+
 NullNode == [n |-> TRUE, c |-> <<>>]
 RECURSIVE Node(_, _, _)
 Node(sc, k, j) ==
